@@ -3,8 +3,12 @@
 (* scripted program (TracerCases) under a handler decision function -- nothing  *)
 (* about wait4, stops or PtraceCont.                                             *)
 (*                                                                               *)
-(*   Trap(k, m, d)   the handler is consulted about task k's marker call m and   *)
-(*                   answers d = dec[m]; a kill answer ends the run (Disallowed) *)
+(*   Trap(k, m, d)   the handler is consulted about a traced call of task k; it   *)
+(*                   sees the key m (the path of a marker call, the syscall name *)
+(*                   of a name-decided call) and answers d = the entry of the    *)
+(*                   decision function for THIS occurrence of m (dec[m][n] for   *)
+(*                   the n-th consultation, the last entry persisting); a kill   *)
+(*                   answer ends the run (Disallowed)                            *)
 (*   Ret(k, r)       the call returns to the program: allow -> it ran, r = 0;    *)
 (*                   ban -> it did not run, r = -BanRet; kill -> never returns   *)
 (*   Step(k, r)      any other op completes with its real result                 *)
@@ -21,14 +25,15 @@ BanRet == 13
 Spawns == {"F", "V", "C"}
 
 VARIABLES
-  pscript, pdec,   \* the case
+  pscript, pdec,   \* the case; pdec[key] = sequence of answers by occurrence
+  pcnt,    \* [key -> consultations so far]
   st,      \* [task -> "unborn","run","trapped","dead"]
   ppc,     \* [task -> index of the next op]
   pd,      \* [task -> decision pending for the trapped call]
   exe,     \* names (markers and untraced calls) that took effect
   res,     \* [k |-> "none"|"exit"|"ds"|"fk"|"killed", x |-> code]  why the run ended
   fkc      \* child processes (leaders) killed by the filter
-pvars == <<pscript, pdec, st, ppc, pd, exe, res, fkc>>
+pvars == <<pscript, pdec, pcnt, st, ppc, pd, exe, res, fkc>>
 
 PTasks == DOMAIN pscript
 POp(k) == IF ppc[k] \in DOMAIN pscript[k] THEN pscript[k][ppc[k]]
@@ -45,7 +50,7 @@ PGroup(j) == { i \in PTasks : PLeader(i) = PLeader(j) }
 PCreated(k) == { j \in PTasks : j # 1 /\ PPar(j) = k /\ PSite(j)[2] < ppc[k] }
 
 PInit(s, d) ==
-  /\ pscript = s /\ pdec = d
+  /\ pscript = s /\ pdec = d /\ pcnt = [key \in DOMAIN d |-> 0]
   /\ st = [k \in DOMAIN s |-> IF k = 1 THEN "run" ELSE "unborn"]
   /\ ppc = [k \in DOMAIN s |-> 1]
   /\ pd = [k \in DOMAIN s |-> "none"]
@@ -57,10 +62,13 @@ EndGroup(k, why, x) ==
   /\ res' = IF PLeader(k) = 1 /\ res.k = "none" THEN [k |-> why, x |-> x] ELSE res
 
 \* the handler is consulted (only while the tracer is still looking: not after a kill answer)
+PKey(o) == IF o.k = "N" THEN "symlink" ELSE o.a
+PAt(p, i) == p[IF i > Len(p) THEN Len(p) ELSE i]
 Trap(k, m, d) ==
-  /\ st[k] = "run" /\ POp(k).k = "T" /\ POp(k).a = m
+  /\ st[k] = "run" /\ POp(k).k \in {"T", "N"} /\ PKey(POp(k)) = m
   /\ res.k # "ds"
-  /\ m \in DOMAIN pdec /\ d = pdec[m]
+  /\ m \in DOMAIN pdec /\ d = PAt(pdec[m], pcnt[m] + 1)
+  /\ pcnt' = [pcnt EXCEPT ![m] = @ + 1]
   /\ st' = [st EXCEPT ![k] = "trapped"] /\ pd' = [pd EXCEPT ![k] = d]
   /\ res' = IF d = "kill" THEN [k |-> "ds", x |-> 0] ELSE res
   /\ UNCHANGED <<pscript, pdec, ppc, exe, fkc>>
@@ -68,18 +76,19 @@ Trap(k, m, d) ==
 \* the trapped call returns r to the program
 Ret(k, r) ==
   /\ st[k] = "trapped"
-  /\ \/ pd[k] = "allow" /\ r = 0 /\ exe' = exe \cup {POp(k).a}
+  \* the real result of an allowed call: a repeated mkdirat of the same name fails with EEXIST (-17)
+  /\ \/ pd[k] = "allow" /\ r = (IF POp(k).k = "T" /\ POp(k).a \in exe THEN -17 ELSE 0) /\ exe' = exe \cup {POp(k).a}
      \/ pd[k] = "ban" /\ r = -BanRet /\ exe' = exe
   /\ st' = [st EXCEPT ![k] = "run"] /\ ppc' = [ppc EXCEPT ![k] = @ + 1]
   /\ pd' = [pd EXCEPT ![k] = "none"]
-  /\ UNCHANGED <<pscript, pdec, res, fkc>>
+  /\ UNCHANGED <<pscript, pdec, pcnt, res, fkc>>
 
 \* an allowed call ran but its task was killed (run over) before it could tell
 RetUnseen(k) ==
   /\ st[k] = "trapped" /\ pd[k] = "allow"
   /\ exe' = exe \cup {POp(k).a}
   /\ st' = [st EXCEPT ![k] = "dead"]
-  /\ UNCHANGED <<pscript, pdec, ppc, pd, res, fkc>>
+  /\ UNCHANGED <<pscript, pdec, pcnt, ppc, pd, res, fkc>>
 
 \* a new task exists as soon as its creator is at the spawn op (it may run before the creator
 \* sees the return value)
@@ -87,7 +96,7 @@ Birth(j) ==
   /\ j # 1 /\ st[j] = "unborn"
   /\ st[PPar(j)] = "run" /\ ppc[PPar(j)] = PSite(j)[2]
   /\ st' = [st EXCEPT ![j] = "run"]
-  /\ UNCHANGED <<pscript, pdec, ppc, pd, exe, res, fkc>>
+  /\ UNCHANGED <<pscript, pdec, pcnt, ppc, pd, exe, res, fkc>>
 
 \* a child is gone for its creator when it ended; a child process the filter killed is gone only
 \* once the tracer has seen that, which ends the run as Disallowed Syscall (see Step W)
@@ -109,7 +118,7 @@ Step(k, op, r) ==
        [] op = "E" -> r = 0 /\ st' = [st EXCEPT ![k] = "dead"] /\ UNCHANGED <<exe, res>>
        [] OTHER -> FALSE
   /\ ppc' = [ppc EXCEPT ![k] = @ + 1]
-  /\ UNCHANGED <<pscript, pdec, pd, fkc>>
+  /\ UNCHANGED <<pscript, pdec, pcnt, pd, fkc>>
 
 \* the implicit end of a script
 EndStep(k, op, r) ==
@@ -117,26 +126,26 @@ EndStep(k, op, r) ==
   /\ IF PKind(k) = "C" THEN op = "E" /\ st' = [st EXCEPT ![k] = "dead"] /\ UNCHANGED res
                        ELSE op = "X" /\ EndGroup(k, "exit", 0)
   /\ ppc' = [ppc EXCEPT ![k] = @ + 1]
-  /\ UNCHANGED <<pscript, pdec, pd, exe, fkc>>
+  /\ UNCHANGED <<pscript, pdec, pcnt, pd, exe, fkc>>
 
 \* a call the filter itself kills: the process dies at once, nothing is returned
 FilterKill(k) ==
   /\ st[k] = "run" /\ POp(k).k = "K"
   /\ EndGroup(k, "fk", 0)
   /\ fkc' = IF PLeader(k) # 1 THEN fkc \cup {PLeader(k)} ELSE fkc
-  /\ UNCHANGED <<pscript, pdec, ppc, pd, exe>>
+  /\ UNCHANGED <<pscript, pdec, pcnt, ppc, pd, exe>>
 \* ... and the tracer learns of a filter-killed child: Disallowed Syscall
 FilterKillSeen ==
   /\ fkc # {} /\ res.k = "none"
   /\ res' = [k |-> "ds", x |-> 0]
-  /\ UNCHANGED <<pscript, pdec, st, ppc, pd, exe, fkc>>
+  /\ UNCHANGED <<pscript, pdec, pcnt, st, ppc, pd, exe, fkc>>
 
 \* an untraced op ran but its task was killed before it could tell
 StepUnseen(k) ==
   /\ st[k] = "run" /\ POp(k).k = "U"
   /\ exe' = exe \cup {POp(k).a}
   /\ st' = [st EXCEPT ![k] = "dead"]
-  /\ UNCHANGED <<pscript, pdec, ppc, pd, res, fkc>>
+  /\ UNCHANGED <<pscript, pdec, pcnt, ppc, pd, res, fkc>>
 
 \* the verdict the property demands for the way the run ended
 Verdict(status, exit) ==
